@@ -40,6 +40,11 @@ def mods():
         if not pdpy11.__file__.startswith(str(REPO)):
             raise MachineryError(f"pdpy11 imported from {pdpy11.__file__}, expected {REPO}")
         _mods = {"parser": parser, "reports": reports, "compiler": compiler}
+        # The repository's hooks are compiled in (guard set at import) but switched OFF: the hook keeps every statement object of an
+        # assembly alive, which is not how the assembler runs for its users (object lifetimes are behaviour too).  asm(hooks=True)
+        # turns them on for the one assembly whose trace is wanted.
+        if hasattr(compiler, "VERIF_HOOKS"):
+            compiler.VERIF_HOOKS = False
         for opt in ("bk_encoding", "deferred", "formats"):       # internals: used when present, never required
             try:
                 _mods[opt] = importlib.import_module("pdpy11." + opt)
@@ -124,7 +129,7 @@ def _reset_after_hang(m):
 
 
 def asm(files, charset="bk", timeout=5.0, fs=None, handler="collect", listing=False, post=None, keep_root=False,
-        reset_after_hang=True, root=None):
+        reset_after_hang=True, root=None, hooks=False):
     """Assemble `files` = [(name, text), ...] (linked in that order).
 
     fs: {relative path: str|bytes} materialised in a scratch directory together with the sources
@@ -166,6 +171,8 @@ def asm(files, charset="bk", timeout=5.0, fs=None, handler="collect", listing=Fa
         elif handler == "graphical":
             nested = m["reports"].GraphicalHandler()
         col = Collector(m, nested, root or "")
+        if hooks and hasattr(m["compiler"], "VERIF_HOOKS"):
+            m["compiler"].VERIF_HOOKS = True
         try:
             with watchdog(timeout):
                 try:
@@ -218,6 +225,8 @@ def asm(files, charset="bk", timeout=5.0, fs=None, handler="collect", listing=Fa
             _reset_after_hang(m)
         return res
     finally:
+        if hooks and hasattr(m["compiler"], "VERIF_HOOKS"):
+            m["compiler"].VERIF_HOOKS = False
         if root and not keep_root:
             rmtree(root)
         elif root and not given_root:
@@ -240,7 +249,7 @@ def run_cli(args, cwd, stdin=None, timeout=120.0, hashseed="0", extra_env=None):
     env = dict(os.environ)
     env["PYTHONPATH"] = str(REPO)
     env["PYTHONHASHSEED"] = str(hashseed)
-    env[GUARD] = "1"
+    env.pop(GUARD, None)               # the command line is run as its users run it: hooks off
     env["PYTHONIOENCODING"] = "utf-8"
     if extra_env:
         env.update(extra_env)
